@@ -247,6 +247,26 @@ def rule_reduce_axis(ctx):
         ctx.holds('R4', 'reduce_axis(keepdims, newaxis=): the axis of that name is the requested one, the others are copies')
     else:
         ctx.violated('R4', fi, 'reduce_axis newaxis', 'with keepdims=True and a requested axis, the result must carry that axis under the same name')
+    # default new axis (take_axis / sort_axis / reindex_axis): func applied to the labels of the axis, *with the metadata of that axis* - the DimArray
+    # operations keep it (Axis.take re-creates the axis with **self.attrs, C16-R5), so must the Dataset variants
+    ev = run(ctx, fi, bind={'keepdims': T.CONST_TRUE}, facts={T.mkcmp('is', P_('newaxis'), T.CONST_NONE): True}, mode='join')
+    dflt = None
+    for p in ev.paths:
+        for e in p.calls('Axis'):
+            if e.a[2] and e.a[2][0][0] == 'call' and e.a[2][0][1] == P_('func'):
+                dflt = e
+    if dflt is None:
+        ctx.undecide('R5', 'reduce_axis: the default new axis (Axis(func(labels, axis=0, **kwargs), name)) was not found')
+    else:
+        c = dflt.a
+        kw = dict(c[3]).get('**')
+        carried = kw is not None and kw[0] == 'attr' and kw[2] in ('attrs', '_attrs') and 'axes' in T.show(kw[1])
+        updated = any(T.call_name(e.a) == 'update' and 'attrs' in T.show(e.a) and 'axes' in T.show(e.a[2][0] if e.a[2] else ('const', '')) for p in ev.paths for e in p.calls('update'))
+        if carried or updated:
+            ctx.holds('R5', 'reduce_axis: the transformed axis keeps the metadata of the axis it replaces')
+        else:
+            ctx.violated('R5', fi, 'axis metadata dropped by reduce_axis', 'the axis produced by Dataset.take_axis / sort_axis / reindex_axis is Axis(func(labels), name) without the attrs of the '
+                         'axis it replaces: ds.take_axis(...).axes[d].attrs is {} where ds[k].take_axis(...).axes[d].attrs keeps units etc.', node=dflt.node)
     # insertion through __setitem__ of a Dataset
     ev = run(ctx, fi, mode='join')
     ins = [e for p in ev.paths for e in p.events if e.kind == 'store_sub' and e.loops]
